@@ -15,14 +15,16 @@ TRUSTED = ['datetime.strptime enters the model as a Section variable valid_time 
 ASSUMPTIONS = ['world.testing/log.testing off; Python asserts enabled (no -O)']
 LEVEL_TEXT = ('Coq theorems over an executable Gallina model of ircmsgs.py (tag escaping, tag dict, string branch of IrcMsg.__init__, __str__): '
               'tag-value round trip for all strings, str() stable under its cache, parse(serialize m) = norm m for all well-formed m (any tags, prefix, middles, arbitrary trailing), '
-              'parsing total for EVERY string (C05_parse_total: a value or MalformedIrcMsg, nothing else; finding F3 repaired); the model is tied to the source by a regenerated '
+              'parsing total for EVERY string, the nick/user/host split after the try included (C05_parse_total: a value or MalformedIrcMsg, nothing else; findings F3 and F30 repaired; '
+              'C05_split_hostmask_total: splitHostmask answers on all isUserHostmask accepts and the pieces rejoin); the model is tied to the source by a regenerated '
               'escape table / except-clause list and by a differential run (exhaustive short hostile lines + generated messages) against the real IrcMsg on every check.')
 LEVEL_NOTE = ('Trusted: Coq kernel, gen_tables.py, ExtrOcamlBasic extraction + OCaml driver, the Python harness; datetime.strptime is a Section '
               'variable (any function); Python code is modelled not verified; the re-serialisation clause is the _str cache (trivial in the model, checked directly on the implementation).')
 TECHNIQUE = 'Coq proof (induction over strings/token lists) + regenerated tables + extracted-model differential correspondence'
 EXPLANATION = 'C05: parse/serialise model of src/ircmsgs.py; theorems in coq/C05/Props.v'
 
-ALPHA = [' ', ':', '@', ';', '=', '\\', '\r', '\n', 'a', 'é']
+ALPHA = [' ', ':', '@', ';', '=', '\\', '\r', '\n', 'a', 'é', '!']
+HM_ALPHA = ['!', '@', 'a', ' ', '\n', '\xa0']
 FMT = '%Y-%m-%dT%H:%M:%S.%fZ'
 
 
@@ -47,12 +49,12 @@ def impl_parse(ircmsgs, line):
         return ('raise', 'MalformedIrcMsg'), None
     except Exception as e:
         return ('raise', type(e).__name__), None
-    return ('ok', [[[k, v] for k, v in m.server_tags.items()], m.prefix, m.command, list(m.args)]), m
+    return ('ok', [[[k, v] for k, v in m.server_tags.items()], m.prefix, m.command, list(m.args), m.nick, m.user, m.host]), m
 
 
 def dec_msg(v):
     tags = [[wire.s(kv[0]), wire.o(kv[1], wire.s)] for kv in v[0]]
-    return [tags, wire.s(v[1]), wire.s(v[2]), wire.ls(v[3])]
+    return [tags, wire.s(v[1]), wire.s(v[2]), wire.ls(v[3])] + [wire.s(x) for x in v[4:7]]
 
 
 def model_parse_pick(out, line):
@@ -65,7 +67,8 @@ def model_parse_pick(out, line):
     return r_true if (tv is not None and strptime_ok(tv)) else r_false
 
 
-# no known findings: C05.F3 (valueless time tag -> TypeError) is repaired; its witness stays in CORPUS_LINES
+# no known findings: C05.F3 (valueless time tag -> TypeError) and C05.F30 (prefix a!b@c!d -> ValueError out of
+# splitHostmask) are repaired; their witnesses stay in CORPUS_LINES
 CLASSES = {}
 
 
@@ -88,6 +91,25 @@ def check_line(ctx, ircmsgs, line, mout, kind):
             ctx.fail(inp, 'str(IrcMsg(line)) = %r' % str(m))
 
 
+def check_hostmask(ctx, ircutils, h, mout):
+    inp = {'op': 'hostmask', 'hostmask': h}
+    ctx.case('hostmask', inp, nontrivial=bool(h))
+    is_hm = ircutils.isUserHostmask(h)
+    try:
+        ir = ('ok', list(ircutils.splitHostmask(h)))
+    except Exception as e:
+        ir = ('raise', type(e).__name__)
+    if mout is not None:
+        mr = [bool(mout[0]), wire.r(mout[1], lambda v: [wire.s(x) for x in v])]
+        if mr != [is_hm, ir]:
+            ctx.disagree(inp, mr, [is_hm, ir], 'isUserHostmask / splitHostmask')
+    # oracle: what isUserHostmask accepts, splitHostmask splits into pieces that rejoin to it
+    if is_hm and (ir[0] != 'ok' or '%s!%s@%s' % tuple(ir[1]) != h):
+        ctx.fail(inp, 'isUserHostmask accepts %r but splitHostmask gives %r' % (h, ir))
+    if not is_hm and ir != ('raise', 'AssertionError'):
+        ctx.fail(inp, 'isUserHostmask rejects %r but splitHostmask gives %r' % (h, ir))
+
+
 def gen_msg(rng):
     pool = ['a', 'B', 'x y', ':', ' ', '::', 'é', '@', ';', '=', '\\', 'a:b', ' :', '', '\t', 'zz\\s', '\\', 'a\\']
     word = lambda: rng.choice(['PRIVMSG', 'PING', '001', 'a', 'CAP', 'é', '@x', 'x@', 'a:b', 'a;', 'a=', 'P\xa0', '\tQ', 'R\x0c'])
@@ -98,7 +120,8 @@ def gen_msg(rng):
             v = rng.choice([None, '', 'v', 'a b', 'a;b', 'a\\b', '\\', 'x\ny', 'x\ry', '\\s', 'é ', '2020-01-02T03:04:05.678Z',
                             '2020-13-02T03:04:05.678Z', ' ', ';', '\\\\', 'a\\:', 'x==', '=lead', 'k=v', 'a=b=c;d', '='])
             tags[k] = v
-    prefix = rng.choice(['', '', 'nick!user@host', 'irc.server', 'é!u@h', 'n'])
+    prefix = rng.choice(['', '', 'nick!user@host', 'irc.server', 'é!u@h', 'n', 'a!b@c!d', 'a!b!c@d', 'a@b!c@d', 'n!u@h@i', '!a!b@c@', 'a!b@c!@',
+                         'n!u@', '!u@h', 'n!@h', 'a\xa0!b@c', 'a!b@c\t'])
     nargs = rng.choice([0, 0, 1, 1, 2, 3, 5, 15])
     args = [rng.choice(['#chan', 'nick', 'a', 'é', 'x;y', 'a=b', '@a', 'a:b', 'a:',
                         # whitespace other than the ASCII space is ordinary text in a middle argument
@@ -140,6 +163,9 @@ def check_msg(ctx, ircmsgs, g, mout, mout2=None):
         line = str(m)
     except AssertionError:
         return
+    except Exception as e:
+        ctx.fail(inp, 'building the message raised %s: %s' % (type(e).__name__, e))
+        return
     if mout is not None and wire.s(mout) != line:
         ctx.disagree(inp, wire.s(mout), line, 'str(IrcMsg(kw))')
     # messages do not share state: writing into one message's tag dict (Irc.takeMsg adds label=, _makeReply adds
@@ -166,6 +192,12 @@ def check_msg(ctx, ircmsgs, g, mout, mout2=None):
         ir, m2 = impl_parse(ircmsgs, line)
         norm = [[k, (v if v != '' else None)] for k, v in g['tags'].items()]
         want = ('ok', [norm, g['prefix'], g['command'], list(g['args'])])
+        if ir[0] == 'ok':
+            # nick, user, host: either the prefix three times, or three pieces that rejoin to the prefix
+            n, u, h = ir[1][4:7]
+            if not ((n, u, h) == (g['prefix'],) * 3 or '%s!%s@%s' % (n, u, h) == g['prefix']):
+                ctx.fail(inp, 'nick/user/host %r do not rejoin to the prefix %r' % ((n, u, h), g['prefix']))
+            ir = ('ok', ir[1][:4])
         if ir != want:
             ctx.fail(inp, 'round trip: built %r, serialised %r, parsed back %r' % (want[1], line, ir))
 
@@ -174,7 +206,8 @@ def msg_wire(g):
     return [1, [[[k, wire.opt(v)] for k, v in g['tags'].items()], g['prefix'], g['command'], g['args']]]
 
 
-CORPUS_LINES = ['', ':', '@', '@a', '@a ', '@a  ', ' ', '  ', ':x', ':x ', 'PING', 'PING :x', ':s PING :x\r\n', '@time :x PING y',
+CORPUS_LINES = [':a!b@c!d PING :x', ':a!b@c@d!e PING', ':a!b@c!d\n PING', ':n!u@h PING', ':n!u@h\n', ':!@ PING', ':a@b!c PING', ':a!b!c@d@e x',
+                '', ':', '@', '@a', '@a ', '@a  ', ' ', '  ', ':x', ':x ', 'PING', 'PING :x', ':s PING :x\r\n', '@time :x PING y',
                 '@time= :x PING y', '@time=\\ :x PING', '@time=bad :x PING', '@time=2020-01-02T03:04:05.678Z :x PING y',
                 '@a=b;a=c;d PING', '@a=\\s\\:\\r\\n\\\\\\x\\ PING', ':p :', ' :', 'a :', ':a b c :d e  f \r\n\r\n', 'A  B   C',
                 '@;;= X', '@=', '@a=\\\n X', 'PRIVMSG #c :a\rb', '\n', '\r\n', 'x\n\n', '@a x\n', ':\n', ': x']
@@ -196,7 +229,7 @@ def run(ctx):
         try:
             base = str(ircmsgs.IrcMsg(prefix=g['prefix'], command=g['command'], args=tuple(g['args']),
                                       server_tags=dict(g['tags']) if g['tags'] else None))
-        except AssertionError:
+        except Exception:
             base = ':a PRIVMSG #c :x\r\n'
         k = rng.random()
         if k < 0.3:
@@ -211,6 +244,15 @@ def run(ctx):
     outs = ctx.model([[0, l] for l, _ in lines])
     for (l, kind), mo in zip(lines, outs):
         check_line(ctx, ircmsgs, l, mo, kind)
+    # ircutils.isUserHostmask / splitHostmask on their own: exhaustive over a small alphabet
+    import supybot.ircutils as ircutils
+    hml = 6 if ctx.scale == 1 else 7
+    hms = [''.join(t) for n in range(0, hml + 1) for t in itertools.product(HM_ALPHA, repeat=n)]
+    hms += ['nick!user@host', 'a!b@c!d', 'é!ü@ñ', 'a!b@c\n', 'a!b@c\n\n', 'a\u2003!b@c', 'a!b@c\r']
+    ctx.notes.append('hostmask strings over %r exhaustive up to length %d' % (''.join(HM_ALPHA), hml))
+    ho = ctx.model([[5, h] for h in hms])
+    for h, o in zip(hms, ho):
+        check_hostmask(ctx, ircutils, h, o)
     # tag value escape/unescape
     vals = [''.join(t) for n in range(0, 5) for t in itertools.product(['\\', ' ', ';', 's', ':', '\n', '\r', 'n', 'é'], repeat=n)]
     eo = ctx.model([[2, v] for v in vals])
@@ -238,6 +280,9 @@ def replay(ctx, inp):
         check_line(sub, ircmsgs, inp['line'], None, 'replay')
     elif inp['op'] == 'build':
         check_msg(sub, ircmsgs, inp['msg'], None)
+    elif inp['op'] == 'hostmask':
+        import supybot.ircutils as ircutils
+        check_hostmask(sub, ircutils, inp['hostmask'], None)
     elif inp['op'] == 'tagvalue':
         v = inp['value']
         if ircmsgs.unescape_server_tag_value(ircmsgs.escape_server_tag_value(v)) != v:
